@@ -1,4 +1,5 @@
 import Mimium.Model.MirIO
+import Mimium.Model.MirState
 /-! `drv_mir`: the Lean MIR semantics on a dump of the real compiler's MIR (`harness/src/bin/mir.rs`).
 Input line: `id \t times \t inputs \t dump` (inputs as for `drv_prog`: samples separated by `;`, channels by `,`, 16-hex-digit words, `-` = none).
 Output line: `id \t ok <nout> w,w,… | unsupported <what> | stuck <why> | fuel | bad-input` -/
@@ -9,8 +10,23 @@ def parseInputs (s : String) : List (List UInt64) :=
   if s == "-" || s.isEmpty then [] else
   (s.splitOn ";").map fun smp => if smp.isEmpty then [] else (smp.splitOn ",").map parseHex
 
+/-- static checks of every function of a dump: `stateok <nfns> <npass> ok=<i,j,…> fail=<label,…>` -/
+def staticLine (P : Prog) : String :=
+  let ok := okSet P
+  let checked := okSetChecked P ok
+  let idx := List.range P.fns.length
+  let fails := idx.filter (fun g => !ok.contains g)
+  let labels := fails.map fun g => match P.fns[g]? with
+    | some f => s!"{g}:{f.label}"
+    | none => s!"{g}:?"
+  s!"stateok {P.fns.length} {ok.length} checked={checked} fail={",".intercalate labels}"
+
 def mirLine (line : String) : String :=
   match line.splitOn "\t" with
+  | [id, "static", _, dump] =>
+    match parseMir dump with
+    | some P => s!"{id}\t{staticLine P}"
+    | none => s!"{id}\tbad-input"
   | [id, times, inputs, dump] =>
     match parseMir dump, times.toNat? with
     | some P, some n => s!"{id}\t{runProg P n (parseInputs inputs)}"
